@@ -253,6 +253,13 @@ def drive_generators(n, delta, lower, upper, num, tag, res, rng_seed):
         if not (np.array_equal(l0, lower) and np.array_equal(u0, upper)):
             res["viol"].append(V("generator-mutated-arguments", "%s %s modified its bound arrays" % (name, tag)))
         check_dirs(name, d, num, delta, lower, upper, tag, res["viol"], st)
+    # the orthogonal generator's second mode (public keyword, not used by the solver itself): n coordinate-like directions, no negatives
+    try:
+        d = orth(num, delta, lower, upper, with_neg_dirns=False)
+        check_dirs("random_orthog_directions_within_bounds", d, num, delta, lower, upper, tag + " with_neg_dirns=False", res["viol"], st, with_neg=False)
+    except Exception as e:
+        res["viol"].append(V("exception", "random_orthog_directions_within_bounds(with_neg_dirns=False) %s raised %r" % (tag, e),
+                             delta=delta, lower=lower, upper=upper, num_pts=num))
 
 
 def run_gen_enum(case, res):
